@@ -33,9 +33,8 @@ P = 'C20'
 REL = 'optimism/VTKWriter.py'
 
 DESIGNED_NOT_REGISTERED = [
-    ('value round-trip (parsed coordinates / connectivity / field values equal the supplied ones)',
-     'plain data movement through numpy: there is no quantifier a solver adds to (DESIGN C20 "outside"); the shape-symbolic '
-     'arrays deliberately carry no element values beyond a constant-fill / upper-bound abstraction per column'),
+    ('number formatting (decimal text of a binary64 / integer value parses back to the same value)',
+     'python/numpy repr round-trip, no solver content; value PLACEMENT is registered as O3'),
 ]
 
 
@@ -191,6 +190,29 @@ class ShapeArr:
     def astype(self, dtype):
         return ShapeArr(self.shape, dtype, self.cols)
 
+    def transpose(self, *axes):
+        if len(axes) == 1 and isinstance(axes[0], (tuple, list)):
+            axes = tuple(axes[0])
+        if not axes or axes == (None,):
+            axes = tuple(reversed(range(self.ndim)))
+        if sorted(int(a) % max(self.ndim, 1) for a in axes) != list(range(self.ndim)):
+            raise ValueError("axes don't match array")
+        axes = [int(a) % self.ndim for a in axes]
+        return ShapeArr([self.shape[a] for a in axes], self.dtype, self.cols if axes == list(range(self.ndim)) else None)
+
+    @property
+    def T(self):
+        return self.transpose()
+
+    def swapaxes(self, a, b):
+        ax = list(range(self.ndim))
+        ax[a], ax[b] = ax[b], ax[a]
+        return self.transpose(ax)
+
+    def ravel(self, *a, **k):
+        return self.reshape((-1,))
+    flatten = ravel
+
     def __repr__(self):
         return 'ShapeArr(%s, %s)' % (', '.join(str(px.unwrap(d)) for d in self.shape), self.dtype)
 
@@ -215,20 +237,38 @@ class ShapeArr:
         if len(neg) > 1:
             raise ValueError('can only specify one unknown dimension')
         if neg:
-            if any(_isym(d) for d in shape):
-                raise Unsupported('reshape with -1 and another symbolic dimension')
-            k = 1
+            k, rest, exact = 1, list(syms), True
             for i, d in enumerate(shape):
-                if i != neg[0]:
+                if i == neg[0]:
+                    continue
+                if _isym(d):
+                    hit = [j for j, r in enumerate(rest) if r.z.eq(d.z)]
+                    if hit:
+                        rest.pop(hit[0])
+                    else:
+                        exact = False
+                else:
                     k *= int(d)
-            if k == 0 or coef % k:
-                if not syms:
-                    raise ValueError('cannot reshape array of size %d into shape %s' % (coef, shape))
-                raise Unsupported('reshape %s -> %s: divisibility of a symbolic size' % (self, shape))
-            miss = coef // k
-            for s in syms:
-                miss = s * miss
-            new = tuple(miss if i == neg[0] else int(d) for i, d in enumerate(shape))
+            if exact and k != 0 and coef % k == 0:
+                # the given dimensions divide the size syntactically: the free dimension is the product of what is left
+                miss = coef // k
+                for r in rest:
+                    miss = r * miss
+            elif not syms and not any(_isym(d) for d in shape):
+                raise ValueError('cannot reshape array of size %d into shape %s' % (coef, shape))
+            else:
+                # general case: numpy needs the product of the given dimensions to divide the size (decided by the solver)
+                den = 1
+                for i, d in enumerate(shape):
+                    if i != neg[0]:
+                        den = d * den
+                tot = self.size
+                ex = px.cur()
+                zt, zd = _zint(tot), _zint(den)
+                ex.goal(DEFINED, Holds(z3.And(zd > 0, zt % zd == 0)), info='reshape %s -> %s: %s divides %s' % (self, [px.unwrap(d) for d in shape], zd, zt))
+                ex.assume(z3.And(zd > 0, zt % zd == 0))
+                miss = SInt(zt / zd)
+            new = tuple(miss if i == neg[0] else (d if _isym(d) else int(d)) for i, d in enumerate(shape))
         else:
             new = tuple(d if _isym(d) else int(d) for d in shape)
             tot = 1
@@ -258,17 +298,20 @@ class ShapeArr:
                 if k.start in (None, 0) and k.stop is None:
                     out.append(n)
                     continue
-                if k.start not in (None, 0):
-                    raise Unsupported('slice with a non-zero start')
-                stop = k.stop
-                if not _isym(stop) and not _isym(n):
-                    stop = int(stop)
-                    ln = min(stop, int(n)) if stop >= 0 else max(int(n) + stop, 0)
+                start = 0 if k.start is None else k.start
+                stop = n if k.stop is None else k.stop
+                if not _isym(start) and not _isym(stop) and not _isym(n):
+                    rng = range(*slice(int(start), int(stop)).indices(int(n)))
+                    ln = len(rng)
                     if ax == colax and self.ndim == 2 and cols is not None:
-                        cols = cols[:ln]
+                        cols = [cols[j] for j in rng]
                 else:
-                    # 0 <= stop assumed by construction of the harness inputs (sizes are >= 0)
-                    ln = SInt(z3.If(_zint(stop) <= _zint(n), _zint(stop), _zint(n)))
+                    if (not _isym(start) and int(start) < 0) or (not _isym(stop) and int(stop) < 0):
+                        raise Unsupported('negative slice bound on an axis of symbolic length')
+                    # symbolic bounds are sizes (>= 0 by construction of the harness inputs): numpy clips both to n
+                    zs, ze, zn = _zint(start), _zint(stop), _zint(n)
+                    lo, hi = z3.If(zs <= zn, zs, zn), z3.If(ze <= zn, ze, zn)
+                    ln = SInt(z3.simplify(z3.If(hi >= lo, hi - lo, z3.IntVal(0))))
                     if ax == colax and self.ndim == 2:
                         cols = None
                 if ax != colax or self.ndim == 1:
@@ -325,11 +368,11 @@ class ShapeArr:
         # column abstraction of the target
         if self.ndim == 2 and self.cols is not None:
             ck = nkey[1]
-            if isinstance(ck, slice) and not _isym(ck.stop) and not _isym(self.shape[1]) and whole:
-                n = len(self.cols[:ck.stop] if ck.stop is not None else self.cols)
-                src = v.cols if (v.ndim == 2 and v.cols is not None and len(v.cols) == n) else None
-                for j in range(n):
-                    self.cols[j] = dict(src[j]) if src is not None else _col()
+            if isinstance(ck, slice) and not _isym(ck.start) and not _isym(ck.stop) and ck.step in (None, 1) and not _isym(self.shape[1]) and whole:
+                js = list(range(*ck.indices(int(self.shape[1]))))
+                src = v.cols if (v.ndim == 2 and v.cols is not None and len(v.cols) == len(js)) else None
+                for i, j in enumerate(js):
+                    self.cols[j] = dict(src[i]) if src is not None else _col()
             else:
                 self.cols = [_col() for _ in self.cols]
         elif self.cols is not None:
@@ -557,6 +600,7 @@ def read_legacy_vtk(text):
             continue
         if any(isinstance(v, ShapeArr) for v in vals):
             raise Unsupported('table token inside a text row')
+        secs[-1].setdefault('lines', []).append(vals)
         lead = vals[0] if _is_intlike(vals[0]) else None
         ch = secs[-1]['chunks']
         if ch and not ch[-1].get('table') and ch[-1]['cols'] == len(vals) and not sym.isz(lead) and not sym.isz(ch[-1]['lead']) and ch[-1]['lead'] == lead:
@@ -973,6 +1017,215 @@ def _note(h, degrees, spheres, edges, fsets, nwrites):
     h.outside('number formatting and value round-trip of coordinates/fields (plain data movement)',
               'histories that add fields/spheres/edges between two write() calls; more than 3 spheres or 3 contact edges; 3-D meshes',
               'binary VTK format (the writer only produces ASCII)')
+
+
+# ------------------------------------------------------------------------------------------ value placement (O3)
+class SVal(SInt):
+    """a symbolic array ENTRY (z3 Real or Int): str.format gives a placeholder token, like SInt"""
+
+
+class ValNP:
+    """`np` for the value-placement run: real numpy, except that zeros() allocates object arrays (a float64 buffer cannot
+    hold a symbolic entry); every other function is numpy's own, working on object arrays of SVal"""
+
+    def __getattr__(self, name):
+        return getattr(onp, name)
+
+    def zeros(self, shape, dtype=float, **k):
+        a = onp.empty(shape, dtype=object)
+        a.fill(0 if onp.dtype(dtype if dtype is not object else float).kind in 'iu' else 0.0)
+        return a
+
+
+def _draw(ex, name, shape, sort='R'):
+    """array of fresh inputs: object array of SVal (symbolic run) / float or int array of the model's values (replay)"""
+    a = onp.empty(shape, dtype=object if ex.symbolic else (float if sort == 'R' else onp.int64))
+    for idx in onp.ndindex(*shape):
+        v = ex.real('%s%s' % (name, ''.join('_%d' % i for i in idx)), sort)
+        a[idx] = SVal(v.z) if ex.symbolic else v
+    return a
+
+
+def _quadratic_triangle_order(pe):
+    """VTK_QUADRATIC_TRIANGLE node order (three vertices, then the mid-edge nodes of edges 01, 12, 20) in terms of the
+    parent element's node numbering, derived from the reference coordinates of the real parent element"""
+    c = onp.asarray(pe.coordinates)
+    v = [int(x) for x in onp.asarray(pe.vertexNodes)]
+    mid = lambda a, b: int(onp.argmin(((c - (c[a] + c[b]) / 2) ** 2).sum(1)))
+    return v + [mid(v[0], v[1]), mid(v[1], v[2]), mid(v[2], v[0])]
+
+
+def _placed(ex, gname, got, want, info):
+    """rows `got` read from the file against the rows `want` built from the supplied values"""
+    got = [[px.unwrap(x) for x in r] for r in got]
+    want = [[px.unwrap(x) for x in r] for r in want]
+    ok = len(got) == len(want) and all(len(a) == len(b) for a, b in zip(got, want)) and not any(isinstance(x, str) for r in got for x in r)
+    if not ok:
+        ex.goal(gname, Holds(False), info='%s: %d rows of widths %s read, %d rows of widths %s expected' % (info, len(got), sorted({len(r) for r in got}), len(want), sorted({len(r) for r in want})))
+    elif want:
+        ex.goal(gname, Eq([x for r in got for x in r], [x for r in want for x in r]),
+                info='%s: rows read %s | rows expected from the supplied values %s' % (info, [[_show(x) for x in r] for r in got][:9], [[_show(x) for x in r] for r in want][:9]))
+
+
+def make_value_harness(deg, dims=(1, 2, 3), sphere_counts=(0, 2), edge_counts=(0, 2), nElements=2):
+    """the real writer on small arrays of concrete shape whose ENTRIES are symbolic: every supplied value must be read
+    back at its own (record, i, j) position, everything else is 0"""
+    def fn(ex):
+        del _TOKENS[:]
+        symbolic = ex.symbolic
+        d = choose(ex, 'fieldSpatialDim_index', list(dims))
+        nsph = choose(ex, 'nSpheres_index', list(sphere_counts))
+        nedge = choose(ex, 'nContactEdges_index', list(edge_counts))
+        pe, pe1 = _parent_elements(deg)
+        npe = int(pe.coordinates.shape[0])
+        V, T = 3, nElements
+        nNodes = {1: 3, 2: 4}.get(deg, 5)            # degree >= 3: two mesh nodes are not output nodes
+        out = list(range(nNodes)) if deg == 2 else list(range(V))
+        elc = _quadratic_triangle_order(pe) if deg == 2 else [int(v) for v in onp.asarray(pe.vertexNodes)]
+        x = _draw(ex, 'x', (nNodes, 2))
+        conn = _draw(ex, 'conn', (T, npe), 'I')
+        F = dict(s=_draw(ex, 's', (nNodes,)), v=_draw(ex, 'v', (nNodes, d)), t=_draw(ex, 't', (nNodes, d, d)), i=_draw(ex, 'i', (nNodes, 1), 'I'),
+                 cs=_draw(ex, 'cs', (T, 1)), cv=_draw(ex, 'cv', (T, d)), ct=_draw(ex, 'ct', (T, d, d)))
+        sph, rad = _draw(ex, 'sphere', (nsph, 2)), _draw(ex, 'radius', (nsph,))
+        edge = _draw(ex, 'edge', (nedge, 2), 'I')
+        ex.note('degree %d, field spatial dimension %d, %d sphere(s), %d contact edge(s), %d mesh nodes (%d written), %d elements' % (deg, d, nsph, nedge, nNodes, len(out), T))
+
+        def run(backend):
+            mod = px.load_module(REL)
+            files, tmpdir = [], None
+            if backend == 'object':
+                mod.np = ValNP()
+
+                def open_shim(name, mode='r', *a, **k):
+                    files.append(RecFile(name, mode))
+                    return files[-1]
+                mod.open = open_shim
+                xp = None
+                mesh = SymMesh.__new__(SymMesh)
+                mesh.coords, mesh.conns, mesh.simplexNodesOrdinals, mesh.parentElement = x, conn, onp.arange(V), pe
+                base = 'c20_values'
+            else:
+                from optimism import Mesh
+                if backend == 'jax':
+                    import jax.numpy as xp
+                else:
+                    xp = onp
+                mesh = Mesh.Mesh(coords=xp.array(x), conns=xp.array(conn), simplexNodesOrdinals=xp.arange(V), parentElement=pe, parentElement1d=pe1,
+                                 blocks=None, nodeSets=None, sideSets=None)
+                tmpdir = tempfile.mkdtemp(prefix='c20_replay_')
+                base = os.path.join(tmpdir, 'out')
+            conv = (lambda a: a) if xp is None else (lambda a: xp.array(a))
+            try:
+                with _pywarnings.catch_warnings():
+                    _pywarnings.simplefilter('ignore')
+                    FT, DT = mod.VTKFieldType, mod.VTKDataType
+                    W = mod.VTKWriter(mesh, baseFileName=base)
+                    W.add_nodal_field('s', conv(F['s']), FT.SCALARS)
+                    W.add_nodal_field('v', conv(F['v']), FT.VECTORS)
+                    W.add_nodal_field('t', conv(F['t']), FT.TENSORS)
+                    W.add_nodal_field('i', conv(F['i']), FT.SCALARS, DT.INT)
+                    W.add_cell_field('cs', conv(F['cs']), FT.SCALARS)
+                    W.add_cell_field('cv', conv(F['cv']), FT.VECTORS)
+                    W.add_cell_field('ct', conv(F['ct']), FT.TENSORS)
+                    for k in range(nsph):
+                        W.add_sphere(sph[k], rad[k])
+                    for k in range(nedge):
+                        W.add_contact_edges(conv(edge[k:k + 1]))
+                    W.write()
+                    if backend == 'object':
+                        text = files[-1].text()
+                    else:
+                        with open(base + '.vtk') as fh:
+                            text = fh.read()
+            except CODE_ERRORS as e:
+                ex.goal(DEFINED, Holds(False), info='%s: %s (arrays: %s)' % (type(e).__name__, e, backend))
+                return
+            finally:
+                if tmpdir:
+                    shutil.rmtree(tmpdir, ignore_errors=True)
+            ex.goal(DEFINED, Holds(True))
+            header, secs = read_legacy_vtk(text)
+            kws = [q['kw'] for q in secs]
+            okstruct = kws[:3] == ['POINTS', 'CELLS', 'CELL_TYPES'] and 'POINT_DATA' in kws and 'CELL_DATA' in kws
+            ex.goal('sections_in_legacy_order', Holds(okstruct), info=kws)
+            if not okstruct:
+                return
+            lines = lambda q: q.get('lines', [])
+            # ---- POINTS: coordinates of the output nodes in columns 0,1, zero in column 2; then the sphere centres
+            got = lines(secs[0])
+            _placed(ex, 'point_coordinates_in_place', got[:len(out)], [[x[o, 0], x[o, 1], 0.0] for o in out], 'POINTS (mesh nodes)')
+            _placed(ex, 'sphere_centres_in_place', got[len(out):], [[sph[k, 0], sph[k, 1], 0.0] for k in range(nsph)], 'POINTS (spheres)')
+            # ---- CELLS: node count, then the VTK-ordered node ids of each element; then the contact edges
+            got = lines(secs[1])
+            _placed(ex, 'element_connectivity_in_place', got[:T], [[len(elc)] + [conn[e, j] for j in elc] for e in range(T)], 'CELLS (elements)')
+            _placed(ex, 'contact_edge_connectivity_in_place', got[T:], [[2, edge[k, 0], edge[k, 1]] for k in range(nedge)], 'CELLS (contact edges)')
+            _placed(ex, 'cell_types_in_place', lines(secs[2]), [[22 if deg == 2 else 5]] * T + [[3]] * nedge, 'CELL_TYPES')
+            # ---- data arrays
+            ip, ic = kws.index('POINT_DATA'), kws.index('CELL_DATA')
+            parr, _ = _arrays(secs, ip)
+            carr, _ = _arrays(secs, ic)
+            arrays = {('p', a[1]): a for a in parr}
+            arrays.update({('c', a[1]): a for a in carr})
+
+            def rows_of(kind, A, recs):
+                if kind == 'SCALARS':
+                    return [[A.reshape(-1)[r]] for r in recs]
+                if kind == 'VECTORS':
+                    return [[A[r, j] if j < d else 0.0 for j in range(3)] for r in recs]
+                return [[A[r, i, j] if (i < d and j < d) else 0.0 for j in range(3)] for r in recs for i in range(3)]
+
+            for where, name, kind, recs, npad in (('p', 's', 'SCALARS', out, nsph), ('p', 'v', 'VECTORS', out, nsph), ('p', 't', 'TENSORS', out, nsph), ('p', 'i', 'SCALARS', out, nsph),
+                                                  ('c', 'cs', 'SCALARS', range(T), nedge), ('c', 'cv', 'VECTORS', range(T), nedge), ('c', 'ct', 'TENSORS', range(T), nedge)):
+                a = arrays.get((where, name))
+                if a is None or a[0] != kind or a[3] is None:
+                    ex.goal('data_arrays_are_the_accepted_fields_in_order', Holds(False), info='array %s (%s) not found in the file' % (name, kind))
+                    continue
+                got = lines(a[3])
+                want = rows_of(kind, F[name], list(recs))
+                per = ROWS_PER_RECORD[kind]
+                what = '%s %s array %r' % ('point' if where == 'p' else 'cell', kind, name)
+                _placed(ex, '%s_%s_values_in_place' % ('point' if where == 'p' else 'cell', kind.lower()[:-1]), got[:len(want)], want, what)
+                _placed(ex, 'sphere_point_records_are_default' if where == 'p' else 'contact_edge_cell_records_are_default', got[len(want):],
+                        [[0.0] * ARRAY_KW[kind]] * (per * npad), what + ' (padding)')
+            a = arrays.get(('p', 'sphere_radius'))
+            if nsph:
+                _placed(ex, 'sphere_radius_values_in_place', lines(a[3]) if (a is not None and a[3] is not None) else [], [[0.0]] * len(out) + [[rad[k]] for k in range(nsph)], 'sphere_radius')
+
+        for backend in (('object',) if symbolic else ('jax', 'numpy')):
+            run(backend)
+    return fn
+
+
+VALUE_GOALS = ['sections_in_legacy_order', 'point_coordinates_in_place', 'sphere_centres_in_place', 'element_connectivity_in_place', 'contact_edge_connectivity_in_place',
+               'cell_types_in_place', 'point_scalar_values_in_place', 'point_vector_values_in_place', 'point_tensor_values_in_place', 'cell_scalar_values_in_place',
+               'cell_vector_values_in_place', 'cell_tensor_values_in_place', 'sphere_point_records_are_default', 'contact_edge_cell_records_are_default',
+               'sphere_radius_values_in_place', DEFINED]
+
+
+def _register_values():
+    for d in (1, 2, 3, 4):
+        def ob(h, d=d):
+            """value placement: the real writer on arrays of concrete shape with symbolic entries; every supplied coordinate,
+            node id and scalar / vector / d x d tensor component is read back from the file at its own position (tensor
+            component (i, j) of record r in row 3r+i, column j), all other entries and all padding records are 0"""
+            from ..core import REPO
+            src = open(os.path.join(REPO, REL)).read()
+            h.encoded('optimism.VTKWriter (real source on object arrays of symbolic entries; file sha1=%s): write_matrix_as_table, VTKWriter.__init__, add_*, '
+                      '_check_and_format_data, _write_coordinate_data, _write_cell_connectivity, _write_contact_edges, _write_cell_types, _write_nodal_fields, '
+                      '_write_cell_fields, _write_out_all_fields_in_dict, default_values' % hashlib.sha1(src.encode()).hexdigest()[:12])
+            h.bounds('all real values of: coordinates (%d mesh nodes), sphere centres/radii, nodal scalar/vector/tensor (d x d) fields, cell scalar/vector/tensor fields; all integer '
+                     'values of the connectivity (2 elements), contact-edge ids and an integer nodal scalar; concrete shapes: degree %d, spatial dimension d of the fields in {1,2,3}, '
+                     'spheres 0 or 2, contact edges 0 or 2 (two calls)' % ({1: 3, 2: 4}.get(d, 5), d))
+            h.assume_note('stub: open() is a recorder; np.zeros allocates object arrays (ValNP), every other numpy call and write_matrix_as_table are the real ones on object arrays; '
+                          'str.format of a symbolic entry is a placeholder token parsed back to its term',
+                          'expected quadratic-triangle node order is derived from the reference coordinates of the real parent element (vertices, then mid-edge nodes 01, 12, 20)',
+                          'simplexNodesOrdinals = arange(3): the writer does not renumber connectivity, which presumes the simplex nodes come first (as Mesh.create_higher_order_mesh_from_simplex_mesh builds them)')
+            h.outside('number formatting: a replay compares the parsed decimal text with the supplied binary64 values (repr round-trip); shapes larger than the stated ones (placement is uniform in the row index)')
+            px.run_px(h, 'values', make_value_harness(d), cap=20, order=('core',), feas_ms=300, expect_goals=VALUE_GOALS)
+        obligation(P, 'O3.values_land_in_place[degree %d]' % d, tiers=('quick', 'thorough'), cap=300)(ob)
+
+
+_register_values()
 
 
 @obligation(P, 'O0.shape_model_agrees_with_numpy', cap=300)
